@@ -125,6 +125,27 @@ def rule_reader_layout(m: Bf3Model, chk, pid, rid="reader-grammar==documented-la
     chk.ok("%s.%s" % (pid, rid), BF3 + ".Bf3File.dir_from_binary/from_binary", show_reader(m.top), "%s:%d" % (m.fi_read.file, m.fi_read.lineno),
            "consumption grammar extracted from the reads of read_file -> from_binary -> dir_from_binary equals the documented layout table field by field (widths, big-endian, nesting, loop forms, region ends)")
     chk.info["reader_grammar"] = show_reader(m.top)
+    # the MAC switch selects whether the MACs are COMPARED, never what is consumed: a read that happens only on one side of a test of check_cmac gives the
+    # two modes different grammars (and the end-of-region checks reject, with the switch off, what the writer emits)
+    cm = _check_cmac_term(m)
+    bad = []
+    for r in m.readers.values():
+        for f in r.flat:
+            ev = getattr(f, "ev", None)
+            if ev is None or not isinstance(f, RField):
+                continue
+            for fr in ev.ctx:
+                if fr[0] == "if" and any(x is cm for x in subterms(unsnap(fr[1]))):
+                    bad.append((f, ev))
+                    break
+    where = "%s:%d" % (m.fi_read.file, m.fi_read.lineno)
+    if bad:
+        f, ev = bad[0]
+        chk.fail("%s.%s" % (pid, "reads-independent-of-mac-switch"), BF3 + ".Bf3File.dir_from_binary/from_binary", "read of %s byte(s) under a test of check_cmac" % show(f.size, 3),
+                 "%s:%s" % (m.fi_read.file, getattr(ev.node, "lineno", "?")), "with MAC checking off this field is not consumed: the two modes read different grammars")
+        return False
+    chk.ok("%s.%s" % (pid, "reads-independent-of-mac-switch"), BF3 + ".Bf3File.dir_from_binary/from_binary", "%d reads, none under a test of check_cmac" % sum(len(r.flat) for r in m.readers.values()), where,
+           "MAC checking on and off consume the same fields; the switch only selects the comparisons")
     return True
 
 
@@ -470,7 +491,19 @@ def reader_rules(m: Bf3Model, chk, pid, want=None):
             if not (n_.op == "bin" and n_.args[0] == "Add"):
                 return False
             a_, b_ = unsnap(n_.args[1]), unsnap(n_.args[2])
-            return (a_ is y and b_ is unsnap(pay.size)) or (b_ is y and a_ is unsnap(pay.size))
+            if (a_ is y and b_ is unsnap(pay.size)) or (b_ is y and a_ is unsnap(pay.size)):
+                return True
+            # the same sum written with the length of what was read (an exact read returns as many bytes as were asked for)
+            from bfsa.length import lin as _lin
+
+            ln_, ly_, ls_ = _lin(n_), _lin(y), _lin(pay.size)
+            if ln_ is None or ly_ is None or ls_ is None:
+                return False
+            want_ = dict(ly_)
+            for k_, v_ in ls_.items():
+                want_[k_] = want_.get(k_, 0) + v_
+            nz = lambda d_: {k_: v_ for k_, v_ in d_.items() if v_ != 0}
+            return nz(ln_) == nz(want_)
 
         def pred8b(op, a, b):
             if op != "NotEq":
